@@ -25,7 +25,8 @@ Require Import Cirbo.Proofs.BuilderFacts Cirbo.Proofs.ArithFacts Cirbo.Proofs.Ar
   Cirbo.Proofs.ArithSumGenFacts
   Cirbo.Proofs.ArithSumStruct Cirbo.Proofs.ArithSumStructA Cirbo.Proofs.ArithSumStructB
   Cirbo.Proofs.ArithSumStructC Cirbo.Proofs.ArithSumFinal.
-Require Import Cirbo.Proofs.TotalFacts Cirbo.Proofs.ArithSumMinted Cirbo.Proofs.ArithSumTotalFinal.
+Require Import Cirbo.Proofs.TotalFacts Cirbo.Proofs.ArithSumMinted Cirbo.Proofs.ArithSumResultsQ
+  Cirbo.Proofs.ArithSumTotalFinal.
 Require Import Coq.Logic.FinFun.
 Open Scope Z_scope.
 
@@ -276,8 +277,9 @@ Proof. exact generate_sum_weighted_bits_naive_correct. Qed.
      - add_sum_two_numbers: an empty operand (input_labels_x[0] raises IndexError);
      - add_sum_two_numbers_with_shift: shift < len(a) with b empty, shift > len(a) = 0 (IndexError);
      - add_sum_pow2_m1: n = 0 (assert n > 0); the basis is only resolved for n >= 2;
-       the uuid labels are never "" (C07_pow2_m1_needs_nonempty_uuid_labels) and "" is not a gate of
-       the host (the side condition of the value theorem; not needed for termination alone).
+       the uuid labels are never "" (shown necessary by C07_pow2_m1_needs_nonempty_uuid_labels: the
+       first bit of every block is a cell output, i.e. carries a uuid label, and must survive
+       filter(None, .)); the value corollary moreover needs that "" is not a gate of the host.
    `..._total_exact` = works + the value theorem: an unconditional statement. *)
 Theorem C07_sum_n_bits_works : forall fresh, Injective fresh -> forall basis b be xs s,
   resolve_basis basis = Ok b -> all_exist (bc s) xs ->
@@ -308,7 +310,7 @@ Proof. exact add_sum_n_bits_easy_total_exact. Qed.
 
 Theorem C07_sum_pow2_m1_works : forall fresh, Injective fresh -> forall basis be xs s,
   xs <> [] -> all_exist (bc s) xs -> ((2 <= length xs)%nat -> exists b, resolve_basis basis = Ok b) ->
-  has_gate (bc s) "" = false -> (forall k, fresh k <> ""%string) ->
+  (forall k, fresh k <> ""%string) ->
   exists cols s', run fresh (add_sum_pow2_m1 basis be xs) s = Ok (cols, s').
 Proof. exact add_sum_pow2_m1_works. Qed.
 
@@ -332,6 +334,12 @@ Theorem C07_new_gates_carry_uuid_labels : forall fresh A (p : prog A), gen_only 
   forall s r s', run fresh p s = Ok (r, s') ->
   forall l, has_gate (bc s') l = true -> has_gate (bc s) l = true \/ exists k, l = fresh k.
 Proof. exact gen_only_grown. Qed.
+
+(* the result labels of a bit counter on at least two operands are outputs of cells: uuid labels *)
+Theorem C07_sum_n_bits_results_carry_uuid_labels : forall fresh basis be xs s rs s',
+  run fresh (add_sum_n_bits basis be xs) s = Ok (rs, s') -> (2 <= length xs)%nat ->
+  Forall (fun l => exists k, l = fresh k) rs.
+Proof. exact (fun fresh => add_sum_n_bits_Q fresh (fun l => exists k, l = fresh k) (fun k => ex_intro _ k eq_refl)). Qed.
 
 Theorem C07_sum_n_weighted_bits_works : forall fresh, Injective fresh -> forall basis b inp s,
   resolve_basis basis = Ok b -> inp <> [] -> all_exist (bc s) (map snd inp) ->
@@ -459,8 +467,8 @@ Example C07_nonvacuous_weighted :
   is_ok (run hex_label (add_sum_two_numbers_with_shift 3 ["a"] ["b"; "c"] true) (mkB demo_host 1)) = true.
 Proof. vm_compute. repeat split. Qed.
 
-(* the hypotheses of the works-theorems are satisfiable: an injective naming function that never
-   yields "", a host whose gates are the operands and in which "" is not a gate *)
+(* the hypotheses of the works / total_exact theorems are satisfiable: an injective naming function
+   that never yields "", a host whose gates are the operands and in which "" is not a gate *)
 Example C07_works_hypotheses_satisfiable :
   Injective short_label /\ (forall k, short_label k <> ""%string) /\
   all_exist demo_host ["a"; "b"; "c"; "d"; "e"] /\ has_gate demo_host "" = false /\
